@@ -4,7 +4,7 @@
    set, and the returned function ID refers to it." *)
 From Coq Require Import List Arith NArith ZArith Bool.
 Import ListNotations.
-From Orca Require Import Util Flat Lowering Locals LocalsProofs Types TypesProofs Reindex CheckReidx Builder CheckBuild BuildProofs.
+From Orca Require Import Util Flat Lowering Locals LocalsProofs Types TypesProofs Reindex CheckReidx Builder CheckBuild BuildProofs ReidxInv ReidxHandles AddedHandles.
 Local Open Scope N_scope.
 
 (* finish_module appends exactly one End to whatever the Opcode helpers pushed, and keeps the name that was set *)
@@ -165,4 +165,37 @@ Example C12_nonvacuous :
              mkFO 31 [0; 1] [2] [(2, 3); (1, 0); (1, 5)] [(10, [31%Z]); (11, []); (20, [2139095041%Z]); (1, [])] (Some 7);
              mkFO 32 [4] [] [] [(10, [32%Z]); (11, []); (30, [(-1)%Z]); (1, []); (1, [])] None]
   /\ option_map bo_sites (bo_enc c) = Some [(0, 0); (1, 1); (2, 4); (3, 5); (4, 2)].
+Proof. vm_compute. repeat split; reflexivity. Qed.
+
+(* "... and the returned function ID refers to it": for every parsed module, every earlier history, every build and
+   every later history of the engine's calls (builds, import additions, deletions, conversions - of OTHER functions;
+   [names] = the call deletes or converts this very function), the id the build returned still designates the built
+   function in the IR, and the encoder maps it to the index q at which the index space holds that function
+   (fingerprint fp = the function whose emitted form C12_built_function_emitted describes). *)
+Theorem C12_returned_id_refers_to_the_built_function :
+  forall (c : bcase) h1 fp params results locs body name h2 s0 r0 s1 id s2 rets2 lf mf,
+  brun (bbase c) h1 [] = (s0, r0, false) ->
+  bstep s0 (BBuild fp params results locs body name) = Ok (s1, Some id) ->
+  brun s1 h2 [] = (s2, rets2, false) ->
+  existsb (fun o => names (rop_b o) SF id) h2 = false ->
+  index_space (m_f (b_m s2)) = Ok (lf, mf) ->
+  nthN (s_items (m_f (b_m s2))) id = Some (mkItem id None false fp) /\
+  exists q, lookup mf id = Some q /\ nthN (space_of_model (b_m s2) lf SF) q = Some fp.
+Proof. exact built_function_id_designates_it. Qed.
+Print Assumptions C12_returned_id_refers_to_the_built_function.
+
+(* non-vacuity: build, then add an import, convert another function and delete a third: the id 3 returned by the
+   build ends up at index 3 (two imports in front), where the built function (fingerprint 77) stands *)
+Example C12_returned_id_nonvacuous :
+  let m0 := mk_base (mkRC [(0, 11)] [21; 22] [] [] 0 [] [] [] false None false true) in
+  match run_pref m0 [AddLocal SF 77; AddImport SF 12; LocalToImport 1 13; Delete SF 2] [] with
+  | (m, rets, false) =>
+      nth 0 rets None = Some 3 /\
+      existsb (fun o => names o SF 3) [AddImport SF 12; LocalToImport 1 13; Delete SF 2] = false /\
+      match index_space (m_f m) with
+      | Ok (l, mp) => lookup mp 3 = Some 3 /\ nthN (space_of_model m l SF) 3 = Some 77
+      | Panic _ => False
+      end
+  | _ => False
+  end.
 Proof. vm_compute. repeat split; reflexivity. Qed.
